@@ -818,11 +818,17 @@ type ConstantAttribute struct {
 }
 
 func (ca ConstantAttribute) String() string {
+	// The value was HTML-unescaped by the parser, so it has to be escaped again on the way out,
+	// otherwise character references (e.g. &quot; or &amp;lt;) change meaning or break the attribute.
+	value := strings.ReplaceAll(ca.Value, "&", "&amp;")
 	quote := `"`
 	if ca.SingleQuote {
 		quote = `'`
+		value = strings.ReplaceAll(value, `'`, "&#39;")
+	} else {
+		value = strings.ReplaceAll(value, `"`, "&quot;")
 	}
-	return ca.Name + `=` + quote + ca.Value + quote
+	return ca.Name + `=` + quote + value + quote
 }
 
 func (ca ConstantAttribute) Write(w io.Writer, indent int) error {
